@@ -83,6 +83,8 @@ def install_fault(sim, fault):
                     target = sp[0]
             sig = signal.SIGKILL if kind == 'sigkill' else signal.SIGTERM
             sim.gate_open('fault')
+            if target is sim.root_proc:
+                return
             sim_kill(target.pid, sig)
         elif kind == 'sigstop':
             sim.gate_open('fault')
